@@ -165,6 +165,10 @@ int main(void) {
                 for (int fd = 3; fd < 64; fd++) { snprintf(lk, sizeof lk, "/proc/self/fd/%d", fd); ssize_t k = readlink(lk, tg, sizeof tg - 1); if (k > 0) { tg[k] = 0; fprintf(stderr, "fd %d -> %s\n", fd, tg); } }
             }
             printf("ok\n");
+        } else if (!strcmp(cmd, "junk")) {         /* a file that is not a CGNS database */
+            sscanf(line, "%*s %s", a[0]); unhex(a[0], buf);
+            FILE *fp = fopen((char *)buf, "wb");
+            if (!fp) printf("err other\n"); else { fputs("this is not a CGNS database, just sixty-odd bytes of plain text.....\n", fp); fclose(fp); printf("ok\n"); }
         } else if (!strcmp(cmd, "unlinkf")) {
             sscanf(line, "%*s %s", a[0]); unhex(a[0], buf);
             printf(unlink((char *)buf) ? "err other\n" : "ok\n");
